@@ -16,15 +16,22 @@ PROVED to agree on a lexically defined fragment of the pattern language, in both
   back-references with the "at most the number of groups" early error), and — without `v` —
   character classes without `\p \P` (ranges, class escapes, `\b`, `\-`, the out-of-order and
   class-in-range errors).
+* `C08_fragment_u_named` (flags `u` or `v`): all of the above plus NAMED GROUPS `(?<name>…)` and
+  named back-references `\k<name>` (also forward and dangling ones: a `\k<name>` without a group of
+  that name is an error for both), names being full `RegExpIdentifierName`s (Unicode `ID_Start` /
+  `ID_Continue`, `$`, `_`, ZWNJ/ZWJ, `\uHHHH` with surrogate pairs and `\u{…}` escapes; malformed names
+  are errors for both), under the lexical side condition that the group names of the pattern
+  (`lexNames pat`, escapes resolved) are pairwise distinct.  The duplicate-name rule itself (ES2025
+  allows equal names in different alternatives) is NOT covered yet.
 * `C08_fragment_legacy` (neither `u` nor `v`, Annex B): the same token set without `\` and `[`
   (lone `{` `}` `]` are literals, look-aheads are quantifiable, `InvalidBracedQuantifier`).
 
-Not covered: named groups and `\k`, modifier groups `(?ims-ims:…)`, `\p{…}`, classes under `v`,
+Not covered: duplicate group names, named groups in Annex B mode, modifier groups `(?ims-ims:…)`, `\p{…}`, classes under `v`,
 escapes and classes in Annex B mode, lone surrogates under `u` / supplementary code points without `u`.
 
 Definitions (all decidable, all lexical; `Proofs/Lemmas/C08FragDefs.lean`):
-* `fragCore e k` = `fragGo e k false`, a two-mode scanner (`e`: escapes admitted, `k`: classes
-  admitted); `parenOk`, `escOk` say what may follow `(` and `\`.
+* `fragCore ⟨e, k, nm⟩` = `fragGo ⟨e, k, nm⟩ false`, a two-mode scanner (`e`: escapes admitted, `k`:
+  classes admitted, `nm`: named groups and `\k` admitted); `parenOk`, `escOk` say what may follow `(` and `\`.
 * `withinLimits pat` = `md pat ≤ 255 ∧ opens pat ≤ 65535 ∧ quants pat ≤ 65535`: `md` the nesting depth
   of parentheses (escape- and class-aware; the crate's `MAX_NESTING_DEPTH = 256` counts the top-level
   disjunction), `opens` the number of `(` (at least the number of capture groups, limit 65535),
@@ -32,14 +39,17 @@ Definitions (all decidable, all lexical; `Proofs/Lemmas/C08FragDefs.lean`):
   Under these no `Error::…limit` of the crate is reachable.
 * `flagsText fl`: `i`, `m`, `s`, then `v` if `unicode_sets`, else `u` if `unicode`.
 
-Method (`Proofs/Lemmas/C08Frag{Num,Esc,Cls,Sim,Top}.lean`): a simulation of the grammar recognizer
+Method (`Proofs/Lemmas/C08Frag{Num,Esc,Cls,Named,Sim,Top}.lean`): a simulation of the grammar recognizer
 (`disj alt body term quantified atom`) by the crate's descent (`disjLoop termLoop consumeDisjunction
 consumeAtom`), by induction on the recognizer's fuel, with the lexical pieces (quantifiers, escapes,
 classes, the capture-group pre-scan) related separately.  The two places where the recognizers are
 NOT step-for-step aligned are part of the simulation relation: the crate fails on a quantifier after
 an assertion where the grammar fails one step later (`TStep`), and the crate checks a decimal escape
-against the pre-scan count at once where the grammar checks at the end (`Poisoned`).
-No string on which the two recognizers disagree was found.
+against the pre-scan count (and a `\k<name>` against the pre-scan name table) at once where the
+grammar checks at the end (`Poisoned`).  The group-name scanners (`tryConsumeName` / `groupName`) are
+related in `C08FragNamed.lean`; the pre-scan's name table is `lexNames pat` (`parseCaptureGroups_frag`).
+One disagreement was found this way (an escaped `>` ended a group name in the crate, F36); it is fixed
+in the crate (89943a9) and the model mirrors the fix.
 -/
 namespace Regress.C08Frag
 open Regress Regress.IR Regress.Parse Regress.ESG
@@ -54,42 +64,52 @@ open Regress Regress.IR Regress.Parse Regress.ESG
   recognizers), i.e. no named groups, no modifiers;
 over Unicode scalar values (what a Rust `&str` can contain). -/
 def inFragU (v : Bool) (pat : List Nat) : Bool :=
-  fragCore true (!v) pat &&
+  fragCore { e := true, k := !v } pat &&
     pat.all fun c => decide (c ≤ 0x10FFFF) && !(decide (0xD800 ≤ c) && decide (c ≤ 0xDFFF))
 
 /-- The fragment, Annex B mode: `fragCore false false` (as above, no `\\` and no `[` at all) over the
 Basic Multilingual Plane. -/
 def inFragLegacy (pat : List Nat) : Bool :=
-  fragCore false false pat && pat.all fun c => decide (c < 0x10000)
+  fragCore { e := false, k := false } pat && pat.all fun c => decide (c < 0x10000)
 
-/-- **C08 on the fragment, UnicodeMode** (`u` or `v`). -/
-theorem C08_fragment_u (pat : List Nat) (fl : Flags) (hu : (fl.unicode || fl.unicodeSets) = true)
-    (hf : inFragU fl.unicodeSets pat = true) (hl : withinLimits pat = true) :
+/-- The fragment with NAMED GROUPS, UnicodeMode: as `inFragU`, and moreover named groups
+`(?<name>…)` and named back-references `\\k<name>` (names are `RegExpIdentifierName`s: `ID_Start` /
+`ID_Continue` characters, `$`, `_`, ZWNJ, ZWJ, and `\\uHHHH` / `\\u{…}` escapes of such), under the
+lexical side condition that the group names of the pattern (`lexNames`, escapes resolved) are
+pairwise distinct. -/
+def inFragUNamed (v : Bool) (pat : List Nat) : Bool :=
+  fragCore { e := true, k := !v, nm := true } pat &&
+    (pat.all fun c => decide (c ≤ 0x10FFFF) && !(decide (0xD800 ≤ c) && decide (c ≤ 0xDFFF))) &&
+    decide (lexNames pat).Nodup
+
+/-- The common core of the UnicodeMode theorems. -/
+theorem core_u (nm : Bool) (pat : List Nat) (fl : Flags) (hu : (fl.unicode || fl.unicodeSets) = true)
+    (hfr : fragCore { e := true, k := !fl.unicodeSets, nm := nm } pat = true)
+    (hall : ∀ c ∈ pat, c ≤ 0x10FFFF ∧ ¬ (0xD800 ≤ c ∧ c ≤ 0xDFFF)) (hnd : (lexNames pat).Nodup)
+    (hl : withinLimits pat = true) :
     (Parse.parse pat fl).isOk = true ↔ esValid (flagsText fl) pat = true := by
-  simp only [inFragU, Bool.and_eq_true, List.all_eq_true, decide_eq_true_eq, Bool.not_eq_true',
-    Bool.and_eq_false_iff, decide_eq_false_iff_not] at hf
-  obtain ⟨hfr, hall⟩ := hf
   have hb : Bnd pat := fun c hc => (hall c hc).1
-  have hns : ∀ c ∈ pat, ¬ (0xD800 ≤ c ∧ c ≤ 0xDFFF) := fun c hc h => by
-    rcases (hall c hc).2 with h' | h' <;> omega
-  have hp := parse_isOk_iff true (!fl.unicodeSets) pat fl hb hfr (by simp)
-  have heff : (effFlags fl).unicode = true := by
-    unfold effFlags
-    cases h1 : fl.unicodeSets <;> simp_all
+  have hns : ∀ c ∈ pat, ¬ (0xD800 ≤ c ∧ c ≤ 0xDFFF) := fun c hc => (hall c hc).2
   have hch : ∀ c ∈ pat, Parse.isChar c = true := fun c hc => by
     have h1 := (hall c hc).1
     have h2 := hns c hc
     simp only [Parse.isChar, Bool.or_eq_true, Bool.and_eq_true, decide_eq_true_eq]
     omega
+  obtain ⟨N, hN, hNok, hp⟩ := parse_isOk_iff { e := true, k := !fl.unicodeSets, nm := nm } pat fl hb hfr
+    (fun _ => hch) (by simp) hnd
+  have heff : (effFlags fl).unicode = true := by
+    unfold effFlags
+    cases h1 : fl.unicodeSets <;> simp_all
   have heffv : (effFlags fl).unicodeSets = fl.unicodeSets := by
     unfold effFlags; split <;> rfl
-  obtain ⟨h1, _, h3⟩ := frag_core true (!fl.unicodeSets)
-    { u := true, v := fl.unicodeSets, n := true, feat25 := true, t := tabs } pat (effFlags fl)
-    (by rw [heff]) (fun _ => heff)
+  obtain ⟨h1, _, h3⟩ := frag_core { e := true, k := !fl.unicodeSets, nm := nm }
+    { u := true, v := fl.unicodeSets, n := true, feat25 := true, t := tabs } pat (effFlags fl) N
+    (by rw [heff]) (.inl ⟨rfl, rfl⟩) (fun _ => heff)
     (fun h => by
       have hv : fl.unicodeSets = false := by simpa using h
       exact ⟨rfl, heff, hv, by rw [heffv, hv]⟩)
-    (fun _ => hch) hfr hl
+    (fun _ => ⟨rfl, rfl⟩)
+    (fun _ => hch) hfr hl hN hNok hnd
   rw [hp, h1, esValid_eq]
   have huv : ((fl.unicode && !fl.unicodeSets) || fl.unicodeSets) = true := by
     cases h1 : fl.unicodeSets <;> simp_all
@@ -100,6 +120,83 @@ theorem C08_fragment_u (pat : List Nat) (fl : Flags) (hu : (fl.unicode || fl.uni
   | bad => simp
   | fuel => exact absurd hpp h3
 
+theorem scalar_of_all {pat : List Nat}
+    (h : (pat.all fun c => decide (c ≤ 0x10FFFF) && !(decide (0xD800 ≤ c) && decide (c ≤ 0xDFFF))) = true) :
+    ∀ c ∈ pat, c ≤ 0x10FFFF ∧ ¬ (0xD800 ≤ c ∧ c ≤ 0xDFFF) := by
+  simp only [List.all_eq_true, Bool.and_eq_true, decide_eq_true_eq, Bool.not_eq_true',
+    Bool.and_eq_false_iff, decide_eq_false_iff_not] at h
+  intro c hc
+  obtain ⟨h1, h2⟩ := h c hc
+  exact ⟨h1, fun h3 => by rcases h2 with h' | h' <;> omega⟩
+
+/-- **C08 on the fragment, UnicodeMode** (`u` or `v`). -/
+theorem C08_fragment_u (pat : List Nat) (fl : Flags) (hu : (fl.unicode || fl.unicodeSets) = true)
+    (hf : inFragU fl.unicodeSets pat = true) (hl : withinLimits pat = true) :
+    (Parse.parse pat fl).isOk = true ↔ esValid (flagsText fl) pat = true := by
+  simp only [inFragU, Bool.and_eq_true] at hf
+  obtain ⟨hfr, hall⟩ := hf
+  have hnil := lexNames_nil_of_frag _ rfl hfr
+  exact core_u false pat fl hu hfr (scalar_of_all hall) (by rw [hnil]; exact List.nodup_nil) hl
+
+/-- **C08 on the fragment with named groups, UnicodeMode** (`u` or `v`); subsumes `C08_fragment_u`
+(`inFragU v pat → inFragUNamed v pat`, `inFragU_named`). -/
+theorem C08_fragment_u_named (pat : List Nat) (fl : Flags) (hu : (fl.unicode || fl.unicodeSets) = true)
+    (hf : inFragUNamed fl.unicodeSets pat = true) (hl : withinLimits pat = true) :
+    (Parse.parse pat fl).isOk = true ↔ esValid (flagsText fl) pat = true := by
+  simp only [inFragUNamed, Bool.and_eq_true, decide_eq_true_eq] at hf
+  obtain ⟨⟨hfr, hall⟩, hnd⟩ := hf
+  exact core_u true pat fl hu hfr (scalar_of_all hall) hnd hl
+
+/-- The named fragment contains the unnamed one. -/
+theorem parenOk_nm (r : List Nat) (h : parenOk false r = true) : parenOk true r = true := by
+  unfold parenOk at h ⊢
+  split <;> simp_all
+
+theorem fragGo_nm (e k : Bool) (m : Bool) (l : List Nat)
+    (h : fragGo { e := e, k := k } m l = true) : fragGo { e := e, k := k, nm := true } m l = true := by
+  fun_induction fragGo { e := e, k := k } m l with
+  | case1 => rfl
+  | case2 x r ih =>
+    rw [fragGo_esc_in]
+    simp only [Bool.and_eq_true] at h ⊢
+    exact ⟨h.1, ih h.2⟩
+  | case3 r ih => rw [fragGo_close]; exact ih h
+  | case4 c r h1 h2 ih =>
+    rw [fragGo]
+    · exact ih h
+    · exact h1
+    · intro hc; exact h2 hc
+  | case5 => rfl
+  | case6 x r ih =>
+    rw [fragGo_esc_out]
+    simp only [Bool.and_eq_true] at h ⊢
+    refine ⟨⟨h.1.1, ?_⟩, ih h.2⟩
+    have := h.1.2
+    simp only [escOk] at this ⊢
+    revert this
+    cases x == 0x70 <;> cases x == 0x50 <;> cases x == 0x6B <;> simp
+  | case7 r ih =>
+    rw [fragGo_open]
+    simp only [Bool.and_eq_true] at h ⊢
+    exact ⟨h.1, ih h.2⟩
+  | case8 c r h1 h2 ih =>
+    rw [fragGo]
+    · simp only [Bool.and_eq_true, Bool.or_eq_true] at h ⊢
+      refine ⟨⟨h.1.1, ?_⟩, ih h.2⟩
+      rcases h.1.2 with h' | h'
+      · exact .inl h'
+      · exact .inr (parenOk_nm r h')
+    · exact h1
+    · intro hc; exact h2 hc
+
+theorem inFragU_named (v : Bool) (pat : List Nat) (h : inFragU v pat = true) :
+    inFragUNamed v pat = true := by
+  simp only [inFragU, Bool.and_eq_true] at h
+  simp only [inFragUNamed, Bool.and_eq_true, decide_eq_true_eq]
+  refine ⟨⟨fragGo_nm _ _ _ _ h.1, h.2⟩, ?_⟩
+  rw [lexNames_nil_of_frag _ rfl h.1]
+  exact List.nodup_nil
+
 /-- **C08 on the fragment, Annex B mode** (neither `u` nor `v`). -/
 theorem C08_fragment_legacy (pat : List Nat) (fl : Flags) (hu : fl.unicode = false)
     (hv : fl.unicodeSets = false) (hf : inFragLegacy pat = true) (hl : withinLimits pat = true) :
@@ -107,17 +204,25 @@ theorem C08_fragment_legacy (pat : List Nat) (fl : Flags) (hu : fl.unicode = fal
   simp only [inFragLegacy, Bool.and_eq_true, List.all_eq_true, decide_eq_true_eq] at hf
   obtain ⟨hfr, hall⟩ := hf
   have hb : Bnd pat := fun c hc => by have := hall c hc; omega
-  have hp := parse_isOk_iff false false pat fl hb hfr (fun h => by cases h)
+  have hnil := lexNames_nil_of_frag _ rfl hfr
+  obtain ⟨N, hN, hNok, hp⟩ := parse_isOk_iff { e := false, k := false } pat fl hb hfr (fun h => by cases h)
+    (fun h => by cases h) (by rw [hnil]; exact List.nodup_nil)
   have heff : (effFlags fl).unicode = false := by
     unfold effFlags; simp [hv, hu]
-  obtain ⟨h1, h2, h3⟩ := frag_core false false
-    { u := false, v := false, n := false, feat25 := true, t := tabs } pat (effFlags fl)
-    (by rw [heff]) (fun h => by cases h) (fun h => by cases h) (fun h => by cases h) hfr hl
+  obtain ⟨h1, h2, h3⟩ := frag_core { e := false, k := false }
+    { u := false, v := false, n := false, feat25 := true, t := tabs } pat (effFlags fl) N
+    (by rw [heff]) (.inr ⟨rfl, rfl⟩) (fun h => by cases h) (fun h => by cases h) (fun h => by cases h)
+    (fun h => by cases h) hfr hl hN hNok (by rw [hnil]; exact List.nodup_nil)
   rw [hp, h1, esValid_eq, hu, hv]
   unfold esValidCore
   simp only [Bool.false_and, Bool.or_self, Bool.false_eq_true, if_false, toUnits_id pat hall]
   cases hpp : parsePattern { u := false, v := false, n := false, feat25 := true, t := tabs } pat with
-  | ok st => simp [h2 st hpp]
+  | ok st =>
+    have : st.names = [] := by
+      have := h2 st hpp
+      rw [hnil] at this
+      simpa using this
+    simp [this]
   | bad => simp
   | fuel => exact absurd hpp h3
 
@@ -148,6 +253,24 @@ theorem agreesU_of (p : List Nat) (b : Bool)
   simp only [Bool.and_eq_true, beq_iff_eq] at h
   obtain ⟨⟨h1, h2⟩, h3⟩ := h
   have := C08_fragment_u p { unicode := true } rfl h1 h2
+  refine ⟨h1, h2, h3, ?_⟩
+  cases b with
+  | true => exact this.1 h3
+  | false =>
+    cases he : esValid (flagsText { unicode := true }) p with
+    | false => rfl
+    | true => rw [this.2 he] at h3; cases h3
+
+def AgreesUN (p : List Nat) (b : Bool) : Prop :=
+  inFragUNamed false p = true ∧ withinLimits p = true ∧ (Parse.parse p { unicode := true }).isOk = b ∧
+    esValid (flagsText { unicode := true }) p = b
+
+theorem agreesUN_of (p : List Nat) (b : Bool)
+    (h : (inFragUNamed false p && withinLimits p && ((Parse.parse p { unicode := true }).isOk == b)) = true) :
+    AgreesUN p b := by
+  simp only [Bool.and_eq_true, beq_iff_eq] at h
+  obtain ⟨⟨h1, h2⟩, h3⟩ := h
+  have := C08_fragment_u_named p { unicode := true } rfl h1 h2
   refine ⟨h1, h2, h3, ?_⟩
   cases b with
   | true => exact this.1 h3
@@ -282,6 +405,36 @@ example : AgreesL (pat! "(a") false := agreesL_of _ _ (by decide +kernel)
 example : AgreesL (pat! "a)") false := agreesL_of _ _ (by decide +kernel)
 example : AgreesL (pat! "+") false := agreesL_of _ _ (by decide +kernel)
 
+-- named groups (flag `u`)
+example : AgreesUN (pat! "(?<a>x)\\k<a>") true := agreesUN_of _ _ (by decide +kernel)
+example : AgreesUN (pat! "\\k<b>(?<a>x)(?<b>y)") true := agreesUN_of _ _ (by decide +kernel)   -- forward reference
+example : AgreesUN (pat! "(?<$_a1>x)|(?<A>[\\d-z]){2}\\k<$_a1>\\2") false := agreesUN_of _ _ (by decide +kernel)
+example : AgreesUN (pat! "(?<$_a1>x)|(?<A>[\\dz]){2}\\k<$_a1>\\2") true := agreesUN_of _ _ (by decide +kernel)
+example : AgreesUN (pat! "(?<\\u0061b>x)\\k<a\\u{62}>") true := agreesUN_of _ _ (by decide +kernel)  -- escapes are resolved
+example : AgreesUN (pat! "(?<\\uD835\\uDC9C>x)\\k<\\u{1D49C}>") true := agreesUN_of _ _ (by decide +kernel) -- surrogate pair
+example : AgreesUN (pat! "(?<π>x)\\k<π>") true := agreesUN_of _ _ (by decide +kernel)
+example : AgreesUN (pat! "(?<a>(?<b>x(?<c>y)))\\k<c>\\3") true := agreesUN_of _ _ (by decide +kernel)
+-- dangling references, malformed names
+example : AgreesUN (pat! "(?<a>x)\\k<b>") false := agreesUN_of _ _ (by decide +kernel)
+example : AgreesUN (pat! "\\k<a>") false := agreesUN_of _ _ (by decide +kernel)
+example : AgreesUN (pat! "(?<a>x)\\k") false := agreesUN_of _ _ (by decide +kernel)
+example : AgreesUN (pat! "(?<a>x)\\k<a") false := agreesUN_of _ _ (by decide +kernel)
+example : AgreesUN (pat! "(?<a>x)\\k<>") false := agreesUN_of _ _ (by decide +kernel)
+example : AgreesUN (pat! "(?<>x)") false := agreesUN_of _ _ (by decide +kernel)
+example : AgreesUN (pat! "(?<1a>x)") false := agreesUN_of _ _ (by decide +kernel)
+example : AgreesUN (pat! "(?<a-b>x)") false := agreesUN_of _ _ (by decide +kernel)
+example : AgreesUN (pat! "(?<a") false := agreesUN_of _ _ (by decide +kernel)
+example : AgreesUN (pat! "(?<") false := agreesUN_of _ _ (by decide +kernel)
+example : AgreesUN (pat! "(?<a\\u003E)") false := agreesUN_of _ _ (by decide +kernel)          -- F36: an escaped `>` does not end a name
+example : AgreesUN (pat! "(?<a\\u{110000}>x)") false := agreesUN_of _ _ (by decide +kernel)
+example : AgreesUN (pat! "(?<a\\uD800>x)") false := agreesUN_of _ _ (by decide +kernel)         -- lone surrogate escape
+example : AgreesUN (pat! "(?<a\\x62>x)") false := agreesUN_of _ _ (by decide +kernel)
+example : AgreesUN (pat! "(?<a>x") false := agreesUN_of _ _ (by decide +kernel)
+example : AgreesUN (pat! "(?<a>x)*\\k<a>+(?<=\\k<a>)") true := agreesUN_of _ _ (by decide +kernel)
+-- the side condition: equal names (here both recognizers reject, but the theorem does not say so)
+example : inFragUNamed false (pat! "(?<a>x)(?<a>y)") = false := by decide +kernel
+example : inFragUNamed false (pat! "(?<a>x)|(?<\\u0061>y)") = false := by decide +kernel
+
 -- the flag `v` (no classes): the theorem applies as well
 example : esValid (flagsText { unicodeSets := true }) (pat! "(a)\\1(?<=b){2,3}") = false := by
   have := C08_fragment_u (pat! "(a)\\1(?<=b){2,3}") { unicodeSets := true } rfl (by decide +kernel) (by decide +kernel)
@@ -301,3 +454,4 @@ end Regress.C08Frag
 
 #print axioms Regress.C08Frag.C08_fragment_u
 #print axioms Regress.C08Frag.C08_fragment_legacy
+#print axioms Regress.C08Frag.C08_fragment_u_named
